@@ -61,7 +61,11 @@ func (exec *Executor) execUnaryNode(
 			}
 		}
 
+		// A condition is evaluated by the rules of the path's mode, also
+		// below .**, which relaxes them for the accessors that follow it.
+		restore := exec.tempSetIgnoreStructuralErrors(exec.path.IsLax())
 		st, err := exec.executeNestedBoolItem(ctx, node.Operand(), value)
+		restore()
 		if err != nil {
 			return statusFailed, err
 		}
